@@ -99,6 +99,7 @@ func init() {
 			BFS(c, &LightFamily{Nmax: pick(c, 4, 5), Prop: "C07", RemMode: "none", Base: b, Collect: "C01"}, 0)
 			BFS(c, &PartialFamily{Nmax: pick(c, 3, 4), TR: 63, UndoBud: 1, SetLimit: 2, Prop: "C09", Base: b, Collect: "C01"}, 0)
 		}
+		queriedFamily(c, HistOracle{Roots: true, Prop: "C01"})
 		tallFamily(c, "C01")
 	}
 
@@ -126,6 +127,7 @@ func init() {
 		for _, tr := range []uint8{63} {
 			BFS(c, &PartialFamily{Nmax: nf, TR: tr, UndoBud: 1, FRBud: 1, FullFR: true, SetLimit: 2, NoIngest: true, Prop: "C02"}, 0)
 		}
+		queriedFamily(c, HistOracle{Proofs: true, ProofSets: "small", Prop: "C02"})
 		tallFamily(c, "C02")
 	}
 
@@ -155,6 +157,7 @@ func init() {
 		c.Cov.Bound["B.verify_remember_budget"] = famB.VerBud
 		BFS(c, famA, 0)
 		BFS(c, famB, 0)
+		queriedFamily(c, HistOracle{Lookups: true, Prop: "C10"})
 		if !c.Expired() {
 			tallFamily(c, "C10")
 		}
